@@ -238,6 +238,13 @@ def check_formulas(spec, part):
                         bad("ppv", f"ppv={d['ppv']} but ppv1+ppv2+ppv3={d['ppv1'] + d['ppv2'] + d['ppv3']}")
                     part.see(f"DT|formula|{style}")
                 else:
+                    none_ids = [k for k in ("ppv1", "ppv2", "ppv", "ibattery1", "pbattery1", "pgrid", "plant_power", "house_consumption", "grid_in_out", "battery_mode")
+                                if d.get(k) is None]
+                    if none_ids:
+                        # a derived value without a value, although every raw word it is built from decodes (all 16-bit words do)
+                        bad(none_ids[0], f"{none_ids} reported as None; the registers they are derived from hold plain numbers "
+                                         f"(battery_mode byte {pl[30]}, grid mode byte {pl[80] if len(pl) > 80 else None})")
+                        continue
                     for k, (v, i) in {"ppv1": ("vpv1", "ipv1"), "ppv2": ("vpv2", "ipv2")}.items():
                         exact = V10(d[v]) * V10(d[i])
                         part.count("product_checked")
